@@ -1,6 +1,13 @@
 """Configuration of ./check C06 (see lib/registry.py for the fields)."""
-DEBUG = dict(
-    claim="debug", props="Props/C08.v", theorems=[],
+CFG = dict(
+    claim="Theorem C06_client (coq/Props/C06.v): for EVERY run of the client model Model/Client.v (arbitrary peer, any interleaving, "
+          "cancellations, deadline expiry, transport failures) with API-conformant users, the envelopes written for each stream id are accepted by "
+          "the client-to-server protocol automaton proto_c2s of Model/Protocol.v (one request for a unary call; open, bodies, at most one trailer "
+          "with status, at most one reset, reset last; constant id and route), for every stream the client did not itself abort on undecodable "
+          "response metadata; C06_client_refuted shows that the exclusion is necessary (trailer after reset; replayed on the real client, finding "
+          "close-after-abort-reset). The client model is tied lock-step to the real client on every run (all orders of internal rules) and the "
+          "automata judge every per-id per-direction projection of every wire history of the rigs (real client, real server, end to end).",
+    props="Props/C06.v", theorems=["C06_client", "C06_client_refuted"],
     imports=["Model.Client", "Check.ClientC", "Model.Protocol", "Check.CwC", "Check.C06c"],
     case_type="cwcase", find_bad_from="find_bad_from", go_tags="cw",
     rigs=[dict(test="TestC06", timeout_quick=600, timeout_thorough=2400)],
@@ -10,4 +17,13 @@ DEBUG = dict(
                  "4": "a handler returned on a stream that its caller had not reset, on a live connection, and no trailer envelope was written",
                  "5": "the server wrote an envelope for an id it had not received, or a response that does not swap the request's source and destination, or a reset that answers no received body",
                  "6": "the run wedged (watchdog)"},
-    rule="debug")
+    rule="lock-step in synctest bubbles; Rig A (real client, scripted peer): ALL words of length <= 4 (thorough 5) over {send, closesend, recv, cancel, "
+         "deadline expiry, peer body, peer trailer, unary call + reply, write failure} after the open, API-conformant; Rig B (real server, scripted "
+         "protocol-conformant client): ALL words of length <= 5 (thorough 6) over {client body, close, reset; handler recv, send, set+send header, "
+         "return ok, return error} after the open, 3 stream kinds, + unary / undecodable metadata / bodies for unknown ids / the handler's own deadline; "
+         "Rig C (real client - held wires - real server): the cancellation-at-every-prefix scenarios of C07 and the abandonment scenarios of C11 "
+         "(quick: a third / a quarter of them; thorough: all); every per-id per-direction projection of both wire histories is judged by proto_c2s / "
+         "proto_s2c, plus trailer-presence, ids-received, route swap and reset-answers-a-body over the step-indexed histories",
+    assumptions=["payloads, metadata, methods and names are opaque tokens for the client and server (checked by tokenised round trips in the rig)",
+                 "the transport checks the context of a Write (Endpoint.CheckCtx): a Write with a cancelled context fails (hypothesis transport_checks_ctx of DESIGN.md)",
+                 "quiescence = testing/synctest's durable blocking; the server half of the run is judged by the predicates only (its model is tied by ./check SV)"])
